@@ -1835,6 +1835,10 @@ func (a *Agent) TaskPrepare(Command int, Info any, Message *map[string]string, C
 				SocksHeader, err = socks.ReadSocksHeader(conn)
 				if err != nil {
 					logger.Error("Failed to read socks header: " + err.Error())
+					// RFC 1928: an unknown address type is answered with "address type not supported"
+					if SocksHeader.Version == socks.Version && SocksHeader.ATYP != 0 && SocksHeader.ATYP != socks.IPv4 && SocksHeader.ATYP != socks.FQDN && SocksHeader.ATYP != socks.IPv6 {
+						_ = socks.SendAddressTypeNotSupported(conn)
+					}
 					return
 				}
 
